@@ -18,8 +18,13 @@ EXPLANATION = (
     "symbol table and the constant caches are exactly what they were before (R2).  Parser: after each rejected "
     "script of a menu (undeclared symbol, ill-sorted term, malformed command, failure inside let / quantifier / "
     "define-fun bodies) a later script is read - by the same parser object and by a new one on the same "
-    "environment - exactly as on a fresh environment (R4).")
-NOT_DECIDED = ["traces inherent to the design (symbols declared by a failing script stay declared)",
+    "environment - exactly as on a fresh environment (R4).  Text-interface solver: SmtLibSolver is interpreted "
+    "against the reference solver process, which refuses one declaration (a sort outside its logic), so that "
+    "add_assertion fails half-way; for 42 call sequences around the failing call every later call (assert, push, "
+    "pop, solve, is_sat, get_value, get_model restricted to the symbols of the live assertions) has the outcome "
+    "it has when the failing call is never made, and the command stream stays legal (R5).")
+NOT_DECIDED = ["traces inherent to the design (symbols declared by a failing script stay declared; symbols a failed "
+               "add_assertion had already declared in the solver process stay declared and show up in later models)",
                "failures injected elsewhere than at handler calls (e.g. inside the walker's own loop)",
                "parse_model / get_assignment_list after a failed read (only get_script is interpreted after failures)"]
 
